@@ -34,6 +34,12 @@ type VJPCase struct {
 	// built before the first back-propagation and back-propagated after it; the gradients add up
 	// on x and nothing else changes
 	Extra int `json:"extra,omitempty"`
+	// Crowd (0 or 7..17) and CrowdOn: the tracked operand CrowdOn is consumed by Crowd further
+	// operations (scalings by dyadic factors that sum to 1) inside the SAME back-propagated graph:
+	// the root is the concatenation of the flattened weighted result and the flattened scalings,
+	// so that operand's gradient grows by exactly 1 per element
+	Crowd   int `json:"crowd,omitempty"`
+	CrowdOn int `json:"crowd_on,omitempty"`
 }
 
 func init() {
@@ -64,6 +70,17 @@ func genVJP(t *rapid.T, ops []string, expand bool) VJPCase {
 		}
 		for i := range p.Leaves[k].Vals {
 			p.Leaves[k].Vals[i] = cv
+		}
+	}
+	if (op == "exp" || op == "sinh" || op == "cosh" || op == "tanh" || op == "sin" || op == "cos") && rapid.IntRange(0, 5).Draw(t, "largeargs") == 0 {
+		// arguments of magnitude 300..700: results and derivatives near the end of the float64
+		// range, yet finite (squares and products of them are not)
+		v := p.Leaves[0].Vals
+		for i := range v {
+			v[i] = float64(rapid.IntRange(300, 700).Draw(t, "large")) + 0.37
+			if rapid.Bool().Draw(t, "largeneg") {
+				v[i] = -v[i]
+			}
 		}
 	}
 	in := make([]ref.T, len(p.Nodes[0].In))
@@ -100,6 +117,12 @@ func genVJP(t *rapid.T, ops []string, expand bool) VJPCase {
 	c.Fan = drawFan(t)
 	if rapid.IntRange(0, 3).Draw(t, "bystander") == 0 {
 		c.Bystander = rapid.IntRange(1, 2).Draw(t, "bystanderwhen")
+	}
+	if rapid.IntRange(0, 5).Draw(t, "crowd") == 0 {
+		k := rapid.IntRange(0, len(p.Leaves)-1).Draw(t, "crowdon")
+		if p.Leaves[k].Tracked {
+			c.Crowd, c.CrowdOn = rapid.IntRange(7, 17).Draw(t, "crowdn"), k
+		}
 	}
 	c.ResetLeaves = rapid.IntRange(0, 4).Draw(t, "resetleaves") == 0
 	c.ShareUntracked = rapid.IntRange(0, 2).Draw(t, "shareuntracked") == 0
@@ -289,6 +312,25 @@ func checkVJP(c VJPCase, property string) *Failure {
 				return failf("building a second graph over operand %d failed: %v", k, err)
 			}
 		}
+		crowded := false
+		if k := c.CrowdOn; c.Crowd >= 2 && c.Crowd <= 64 && k >= 0 && k < nl && c.P.Leaves[k].Tracked {
+			zf, err := z.Reshape([]int{z.NElems()})
+			if err != nil {
+				return failf("flattening the root failed: %v", err)
+			}
+			parts := []tensor.Tensor{zf}
+			for _, f := range crowdFactors(c.Crowd) {
+				pf, err := lv[k].Scale(f).Reshape([]int{lv[k].NElems()})
+				if err != nil {
+					return failf("flattening a scaled operand failed: %v", err)
+				}
+				parts = append(parts, pf)
+			}
+			if z, err = tensor.Concat(parts, 0); err != nil {
+				return failf("concatenating %d rank-1 tensors failed: %v", len(parts), err)
+			}
+			crowded = true
+		}
 		if c.Bystander == 2 {
 			bystanders()
 		}
@@ -352,6 +394,12 @@ func checkVJP(c VJPCase, property string) *Failure {
 						wsc[k] += extraC[k]
 					}
 				}
+				if crowded && i == c.CrowdOn {
+					for k := range want {
+						want[k]++
+						wsc[k]++
+					}
+				}
 				bad := -1
 				for k := range gv {
 					if !closeTo(gv[k], want[k], wsc[k]) {
@@ -372,6 +420,12 @@ func checkVJP(c VJPCase, property string) *Failure {
 						for k := range aw {
 							aw[k] += extraC[k]
 							asc[k] += extraC[k]
+						}
+					}
+					if crowded && i == c.CrowdOn {
+						for k := range aw {
+							aw[k]++
+							asc[k]++
 						}
 					}
 					match := true
@@ -409,6 +463,10 @@ func checkVJP(c VJPCase, property string) *Failure {
 	}
 	if c.Fan > 0 {
 		evid.Class(property + ".result_has_several_consumers")
+		evid.Class(fmt.Sprintf("%s.root_topology=%d", property, c.Fan))
+	}
+	if c.Crowd > 0 {
+		evid.Class(property + ".operand_with_7_or_more_consumers_in_the_graph")
 	}
 	if c.Bystander > 0 {
 		evid.Class(property + ".bystander_consumers")
